@@ -327,7 +327,60 @@ func genC14(r *Rand, tier string) *Case {
 		}
 		variant = "small-limit"
 	}
+	foreignAt := -1
+	if variant == "seeded" && len(pieces) > 1 && nrows > 0 && r.Chance(1, 8) {
+		// a message that is not part of the COPY stream arrives in the middle of
+		// it (its body: the rest of the stream, so that a reader which took it for
+		// data would go on decoding rows): the COPY is aborted there - the rows
+		// completely delivered before it are the only rows, then an error
+		variant = "foreign-mid-stream"
+		foreignAt = r.Range(1, len(pieces)-1)
+		prefix := 0
+		for _, p := range pieces[:foreignAt] {
+			prefix += p
+		}
+		if prefix > len(stream)-3 {
+			// (the stream is all but complete in front of it: nothing to cut off)
+			foreignAt = 1
+			prefix = pieces[0]
+			if prefix > len(stream)-3 {
+				prefix = len(stream) - 3
+				pieces[0] = prefix
+			}
+		}
+		off := hdr
+		keep := 0
+		for _, row := range rows {
+			off += 2
+			for _, f := range row {
+				off += 4
+				if f != nil {
+					off += len(f)
+				}
+			}
+			if off <= prefix {
+				keep++
+			}
+		}
+		want = want[:keep]
+		end = "err"
+	}
 	c := c14Case(cols, stream, pieces, want, end, variant)
+	if foreignAt >= 0 {
+		st := &c.Conns[0].Steps[1]
+		prefix := 0
+		for _, p := range pieces[:foreignAt] {
+			prefix += p
+		}
+		if prefix > len(stream) {
+			prefix = len(stream)
+		}
+		// Steps[1].Msgs = Q cp, d*len(pieces) [, d rest], c, Q probe
+		foreign := pgwire.FMsg{K: "typed", T: byte(r.Pick("Q", "P", "B", "E", "z")[0]), Data: append([]byte{}, stream[prefix:]...)}
+		ms := append([]pgwire.FMsg{}, st.Msgs[:1+foreignAt]...)
+		ms = append(ms, foreign)
+		st.Msgs = append(ms, st.Msgs[1+foreignAt:]...)
+	}
 	if limit > 0 {
 		c.Server.Limit = limit
 	}
@@ -375,6 +428,27 @@ func genC14(r *Rand, tier string) *Case {
 }
 
 func checkC14(x *Exec, c *Case) ([]Violation, bool) {
+	if c.Variant == "foreign-mid-stream" {
+		// (a shrunk case may have left the domain of this variant's expectation:
+		// a message of another type stands between two CopyData messages, and the
+		// CopyData messages in front of it do not carry the whole stream)
+		before, after, seen := 0, 0, false
+		if len(c.Conns) > 0 {
+			for _, m := range c.Conns[0].FlatMsgs() {
+				switch {
+				case m.K == "typed":
+					seen = true
+				case m.K == "d" && !seen:
+					before += len(m.Data)
+				case m.K == "d":
+					after += len(m.Data)
+				}
+			}
+		}
+		if !seen || after < 3 || before < 19 {
+			return nil, false
+		}
+	}
 	r := x.Run(c)
 	var viol []Violation
 	var want []string
@@ -447,7 +521,7 @@ func checkC14(x *Exec, c *Case) ([]Violation, bool) {
 func init() {
 	register(&Prop{
 		ID: "C14", Level: "exploration", QuickS: 25, ThoroughS: 420,
-		Rule:       "binary COPY streams (signature, flags - in a sixth of the seeded cases with bits of the non-critical half 0-15 set, which readers ignore -, header extension area of 0-40 bytes, tuples, optional -1 trailer) produced by the independent encoder for tables of 1-5 columns over the covered types and 0-6 rows with NULLs anywhere; the chunking into CopyData messages is the schedule: for three short table shapes (stream <= 48 bytes), with and without trailer, EVERY split into 2 and into 3 CopyData messages is enumerated, plus whole-stream and one-byte-per-message; seeded cases use 1-byte messages, cuts inside the header, cuts exactly at row boundaries, random pieces incl. empty CopyData messages, on top of transport segmentation; corruptions: field count +1 / -1 / 0x7FFF / negative other than the -1 trailer, value length beyond the stream, truncated last row, garbage after the trailer; the rows returned by BinaryCopyReader.Read are compared with the encoded rows (value by value through the canonical form), the end of data must be io.EOF, a corruption must be an error and never a row, and the query after the COPY must be served; small message limits (256/1024) with fields of 0.5-5x the limit cut into CopyData messages that each fit; a sixth of the seeded cases are preceded, on the same connection, by a binary COPY into a relation whose columns have the same names but other types; a quarter of the handlers read every row under a context that turns cancelled while the row is read and read again with their live context; non-trivial = the row reader was driven at least once; distinct = distinct case content hashes",
+		Rule:       "binary COPY streams (signature, flags - in a sixth of the seeded cases with bits of the non-critical half 0-15 set, which readers ignore -, header extension area of 0-40 bytes, tuples, optional -1 trailer) produced by the independent encoder for tables of 1-5 columns over the covered types and 0-6 rows with NULLs anywhere; the chunking into CopyData messages is the schedule: for three short table shapes (stream <= 48 bytes), with and without trailer, EVERY split into 2 and into 3 CopyData messages is enumerated, plus whole-stream and one-byte-per-message; seeded cases use 1-byte messages, cuts inside the header, cuts exactly at row boundaries, random pieces incl. empty CopyData messages, on top of transport segmentation; corruptions: field count +1 / -1 / 0x7FFF / negative other than the -1 trailer, value length beyond the stream, truncated last row, garbage after the trailer, a message of another type in the middle of the stream whose body is the rest of the stream; the rows returned by BinaryCopyReader.Read are compared with the encoded rows (value by value through the canonical form), the end of data must be io.EOF, a corruption must be an error and never a row, and the query after the COPY must be served; small message limits (256/1024) with fields of 0.5-5x the limit cut into CopyData messages that each fit; a sixth of the seeded cases are preceded, on the same connection, by a binary COPY into a relation whose columns have the same names but other types; a quarter of the handlers read every row under a context that turns cancelled while the row is read and read again with their live context; non-trivial = the row reader was driven at least once; distinct = distinct case content hashes",
 		Exhaustive: "all 2-piece and 3-piece splits of the encoded stream for 3 table shapes x {trailer, no trailer} (streams <= 48 bytes)",
 		Components: e1Components, Assumptions: commonAssumptions,
 		Fixed: c14Fixed, Gen: genC14, Check: checkC14,
